@@ -4338,15 +4338,25 @@ func isLeafLitValue(v ast.Expr) bool {
 // less tightly than the surrounding precedence prec. The AST encodes
 // grouping by tree shape, but programmatic builders don't insert
 // [*ast.ParenExpr] wrappers, so each rendering site whose context binds
-// tighter than some binary operator must materialise the parens itself
-// or the output would re-parse to a differently-grouped tree.
+// tighter than e's operator must materialise the parens itself or the
+// output would re-parse to a differently-grouped tree.
 //
-// Only [*ast.BinaryExpr] needs the wrap: every other expression type
-// either is itself bracketed, produces a single token, or binds at
-// least as tightly as the postfix / unary contexts.
+// [*ast.BinaryExpr] needs the wrap below its own precedence, and
+// [*ast.UnaryExpr] needs it in the postfix contexts (selector, index,
+// slice, call, postfix operator), which bind tighter than a unary
+// operator: `(-x).a` must not render as `-x.a`, which re-parses as
+// `-(x.a)`. Every other expression type either is itself bracketed,
+// produces a single token, or is a primary expression.
 func wrapForPrecedence(doc doc, e ast.Expr, prec int) doc {
-	if bin, ok := e.(*ast.BinaryExpr); ok && bin.Op.Precedence() < prec {
-		return cats(lParenLit, doc, rParenLit)
+	switch x := e.(type) {
+	case *ast.BinaryExpr:
+		if x.Op.Precedence() < prec {
+			return cats(lParenLit, doc, rParenLit)
+		}
+	case *ast.UnaryExpr:
+		if token.UnaryPrec < prec {
+			return cats(lParenLit, doc, rParenLit)
+		}
 	}
 	return doc
 }
